@@ -11,7 +11,7 @@ import (
 func init() {
 	register(&propDef{
 		ID:          "C02",
-		Explanation: "R-RFC: the ENCODER's wire layout alone is extracted from the source and compared with a reference transcribed from RFC 7011 (sections 3.1, 3.3.2, 3.4.1, 3.2 fig. G/H, 6.1, 7) - an oracle that shares no code with the library, so symmetric encode/decode mistakes that every round-trip test misses are visible: message header: version constant 10, setters write version/length/exportTime/sequence/obsDomain big-endian at offsets 0/2/4/8/12 with widths 2/2/4/4/4 into a MsgHeaderLength(=16)-byte header; set header: id at [0:2] = TemplateSetID(=2) for template sets and the templateID parameter for data sets, length at [2:4] = uint16(set.length), SetHeaderLen = 4; template record: (templateID, fieldCount) big-endian u16 at [0:2],[2:4]; field specifier: (ElementId, Len) u16 + bit 0x80 of the first id byte and a 4-byte big-endian enterprise number exactly when EnterpriseId != 0; every data type's value encoding (the encoder half of C15's table) and the section 7 length prefix in the encoder and both GetLength methods; R-VALUE: in the message builder the value given to SetMessageLen (modulo the uint16 conversion, lossless under the dominating <= 65535 gate) is the same SSA value as the size of the returned buffer = MsgHeaderLength + set.GetSetLength(); the header is copied to [:16], the set header to [16:20], and every record of set.GetRecords() to [index:index+len] with index starting at 20 and advancing by that record's own GetRecordLength(); exactly one set; SendSet calls UpdateLenInHeader on every path before the send; the set's length bookkeeping (4 + sum of record lengths) is C16's rule and is imported; no exporter field (message buffer) is shared unsynchronised with the refresher. Not decided: bytes observed at the peer, user-registered elements whose Len contradicts their type. Later additions: only SendSet (which writes the set length) reaches the IPFIX send function; template elements are built empty (nil stays nil) so that templates can be rebuilt for the UDP refresh.",
+		Explanation: "R-RFC: the ENCODER's wire layout alone is extracted from the source and compared with a reference transcribed from RFC 7011 (sections 3.1, 3.3.2, 3.4.1, 3.2 fig. G/H, 6.1, 7) - an oracle that shares no code with the library, so symmetric encode/decode mistakes that every round-trip test misses are visible: message header: version constant 10, setters write version/length/exportTime/sequence/obsDomain big-endian at offsets 0/2/4/8/12 with widths 2/2/4/4/4 into a MsgHeaderLength(=16)-byte header; set header: id at [0:2] = TemplateSetID(=2) for template sets and the templateID parameter for data sets, length at [2:4] = uint16(set.length), SetHeaderLen = 4; template record: (templateID, fieldCount) big-endian u16 at [0:2],[2:4]; field specifier: (ElementId, Len) u16 + bit 0x80 of the first id byte and a 4-byte big-endian enterprise number exactly when EnterpriseId != 0; every data type's value encoding (the encoder half of C15's table) and the section 7 length prefix in the encoder and both GetLength methods; R-VALUE: in the message builder the value given to SetMessageLen (modulo the uint16 conversion, lossless under the dominating <= 65535 gate) is the same SSA value as the size of the returned buffer = MsgHeaderLength + set.GetSetLength(); the header is copied to [:16], the set header to [16:20], and every record of set.GetRecords() to [index:index+len] with index starting at 20 and advancing by that record's own GetRecordLength(); exactly one set; SendSet calls UpdateLenInHeader on every path before the send; the set's length bookkeeping (4 + sum of record lengths) is C16's rule and is imported; no exporter field (message buffer) is shared unsynchronised with the refresher. Not decided: bytes observed at the peer, user-registered elements whose Len contradicts their type. Later additions: only SendSet (which writes the set length) reaches the IPFIX send function; template elements are built empty (nil stays nil) so that templates can be rebuilt for the UDP refresh. Round-seven addition: PrepareRecord keeps the bytes appended before it (the stored buffer is always a window or an extension of the buffer so far; imported from C16), so a template built through the slice-adopting add path keeps its field specifiers.",
 		Assume:      []string{"the reference tables in checker/layout.go and c02.go are a faithful transcription of RFC 7011", "encoding/binary"},
 		Run:         runC02,
 	})
